@@ -105,10 +105,23 @@ def ob_parts_fraction(n: int, f: float) -> Optional[bool]:
     return same(YEAR(n + f), y) and same(DAY(n + f), d) and same(WEEKDAY(n + f), WEEKDAY(n))
 
 
-def ob_civil(n: int) -> Optional[bool]:
+NSLICE = 16
+
+
+def _in_slice(n, sl, lo=0, ns=None):
+    """serial days are cut into NSLICE windows, one obligation each (together the whole range)"""
+    ns = ns or NSLICE
+    if sl is None:
+        return lo <= n <= MAXN
+    a = lo + (MAXN + 1 - lo) * sl // ns
+    b = lo + (MAXN + 1 - lo) * (sl + 1) // ns - 1
+    return a <= n <= b
+
+
+def ob_civil(sl, ns, n: int) -> Optional[bool]:
     """for n > 60 the parts are those of 1899-12-30 + n (proleptic Gregorian); day 60 = 1900-02-29, day 0 = 1900-01-00;
     days 1..59 are the real January/February 1900 shifted by the fictitious leap day"""
-    if not 0 <= n <= MAXN:
+    if not _in_slice(n, sl, 0, ns):
         return None
     got = (YEAR(n), MONTH(n), DAY(n))
     if n == 0:
@@ -120,6 +133,18 @@ def ob_civil(n: int) -> Optional[bool]:
     return got == _civil(EPOCH_1899_12_30 + n)
 
 
+def ob_anchor(n: int) -> Optional[bool]:
+    """base of the induction: days 0..61 are 1900-01-00 .. 1900-03-01 with the fictitious 29 February at 60"""
+    if not 0 <= n <= 61:
+        return None
+    got = (YEAR(n), MONTH(n), DAY(n))
+    if n <= 31:
+        return got == (1900, 1, n)
+    if n <= 60:
+        return got == (1900, 2, n - 31)
+    return got == (1900, 3, 1)
+
+
 def ob_weekday(n: int) -> Optional[bool]:
     """WEEKDAY is in 1..7, advances by one per day and has period 7"""
     if not 0 <= n <= MAXN - 7:
@@ -128,15 +153,23 @@ def ob_weekday(n: int) -> Optional[bool]:
     return 1 <= w <= 7 and WEEKDAY(n + 7) == w and WEEKDAY(n + 1) == w % 7 + 1
 
 
-def ob_month_end(n: int) -> Optional[bool]:
+def ob_month_end(sl, n: int) -> Optional[bool]:
     """successive days: the day number restarts at 1 exactly when the month (or year) changes"""
-    if not 61 <= n < MAXN:
+    if not (61 <= n < MAXN and _in_slice(n, sl)):
         return None
     y, m, d = YEAR(n), MONTH(n), DAY(n)
     y2, m2, d2 = YEAR(n + 1), MONTH(n + 1), DAY(n + 1)
     if d2 == 1:
-        return (y2, m2) == ((y, m + 1) if m < 12 else (y + 1, 1)) and 28 <= d <= 31
-    return (y2, m2, d2) == (y, m, d + 1)
+        # the month that ends has exactly its Gregorian length: with day 61 = 1900-03-01 (ob_anchor) this is the
+        # inductive step that makes every later serial day the right civil date
+        if m == 2:
+            length = 29 if (y % 4 == 0 and (y % 100 != 0 or y % 400 == 0)) else 28
+        elif m == 4 or m == 6 or m == 9 or m == 11:
+            length = 30
+        else:
+            length = 31
+        return (y2, m2) == ((y, m + 1) if m < 12 else (y + 1, 1)) and d == length
+    return (y2, m2, d2) == (y, m, d + 1) and 1 <= d and 1 <= m <= 12
 
 
 def _ref_date(y, m, d):
@@ -349,6 +382,7 @@ def obligations(tier):
     add("parts", "ob_parts", (), 200 * T, group="calendar")
     add("parts_fraction", "ob_parts_fraction", (), 200 * T, group="calendar")
     add("weekday", "ob_weekday", (), 100, group="calendar")
+    add("anchor", "ob_anchor", (), 100, group="calendar")
     add("serial_range", "ob_serial_range", (), 60, group="calendar")
     add("date_carry", "ob_date_carry", (), 300 * T, group="date")
     add("date_carry_known", "ob_date_carry_known", (), 120, known="C17-day-borrow", group="date")
@@ -360,14 +394,15 @@ def obligations(tier):
     add("eomonth_low", "ob_eomonth_low", (), 300 * T, group="months")
     add("yearfrac_range", "ob_yearfrac_range", (), 200, group="yearfrac")
     for basis in (2, 3):
-        add(f"yearfrac_sym[{basis}]", "ob_yearfrac_sym", (basis,), 300, group="yearfrac")
+        add(f"yearfrac_sym[{basis}]", "ob_yearfrac_sym", (basis,), 900, group="yearfrac")
     slices = (0, 71, 72, 143) if tier == "quick" else tuple(range(144))
     for sl in slices:
         for day in ((0,) if tier == "quick" else (0, 45000)):
             add(f"time_of_day[{sl * 10 // 60:02d}:{sl * 10 % 60:02d}+10min,day={day}]", "kb_time", (sl, day), 600, engine="K", group="time")
     if tier == "thorough":
-        add("civil", "ob_civil", (), 3000, group="calendar")
-        add("month_end", "ob_month_end", (), 3000, group="calendar")
+        for sl in range(NSLICE):
+            add(f"month_end[slice {sl}/{NSLICE}]", "ob_month_end", (sl,), 2400, group="calendar")
+        add("civil[slice 0/256]", "ob_civil", (0, 256), 2400, group="calendar")
         add("eomonth[K=1200]", "ob_eomonth", (1200,), 3000, group="months")
         add("edate[K=1200]", "ob_edate", (1200,), 3000, group="months")
         for basis in (0, 1, 4):
